@@ -206,7 +206,6 @@ package dag
 //@ func (*state).updateState
 //@   prop C08
 //@   assume-benign
-//@   loop 1 invariant true
 //@   ensures [both-digests-updated-in-this-tx] isNilIface(result) ==> did(call (*treeStore).write #1) && isNilIface(ret(call (*treeStore).write #1)) && did(call (*treeStore).write #2) && isNilIface(ret(call (*treeStore).write #2))
 //@        && arg(call (*treeStore).write #1, 0) == s.ibltTree && arg(call (*treeStore).write #2, 0) == s.xorTree
 //@        && arg(call (*treeStore).write #1, 1) == tx && arg(call (*treeStore).write #2, 1) == tx
@@ -305,7 +304,6 @@ package dag
 //@   requires !isNilIface(p.db)
 //@   loop 1 invariant $i == 0 || isNilIface(ret(call (*notifier).notifyNow #1)) || !(readyToRetry[$i-1].Retries < maxRetries)
 //@        || (did(call append #1) && len(arg(call append #1, 1)) == 1 && same(arg(call append #1, 1)[0], readyToRetry[$i-1]))
-//@   loop 2 invariant true
 //@   call (*notifier).notifyNow #1 requires [every-stored-event-is-offered-again] same(arg(1), readyToRetry[$i-1])
 //@   call (*notifier).retry #1 requires [failed-events-enter-the-retry-loop] same(arg(1), failedAtStartup[$i-1])
 
@@ -377,14 +375,12 @@ package dag
 // A failed notification is retried unless the receiver said it is fatal.
 //@ func (*notifier).Notify
 //@   prop C14
-//@   loop 1 invariant true
 //@   ensures [non-fatal-failure-is-rescheduled] did(call (*notifier).notifyNow #1) && !isNilIface(ret(call (*notifier).notifyNow #1)) && ret(call errors.As #1) == false ==>
 //@        did(call (*notifier).retry #1) && same(arg(call (*notifier).retry #1, 1), event)
 
 // Only new events are scheduled, on the notifier's own database, after the filters accepted them.
 //@ func (*notifier).Save
 //@   prop C14
-//@   loop 1 invariant true
 //@   call (*notifier).writeEvent #1 requires [new-event-on-own-db] ret(call (go-stoabs.WriteTx).Store #1) == p.db && ret(call errors.Is #1) == true && arg(call errors.Is #1, 0) == ret(call (*notifier).readEvent #1).1
 //@        && same(arg(2), event) && arg(1) == ret(call (go-stoabs.WriteTx).GetShelfWriter #1) && arg(call (go-stoabs.WriteTx).GetShelfWriter #1, 1) == ret(call (notifier).shelfName #1)
 
@@ -419,7 +415,6 @@ package dag
 //@ func (*xorTreeRepair).checkPage$1
 //@   prop C08
 //@   requires lcEnd == lcStart + PageSize && !isNilIface(calculatedXorTree) && f != nil && f.state != nil && f.state.graph != nil && f.state.xorTree != nil
-//@   loop 1 invariant true
 //@   call (*dag).findBetweenLC #1 requires [exactly-this-page] arg(1) == txn && arg(2) == lcStart && arg(3) == lcEnd
 //@   call (tree.Tree).Insert #1 requires [recomputed-from-the-stored-transactions] arg(0) == calculatedXorTree && same(arg(1), tx.Ref()) && arg(2) == tx.Clock()
 //@        && (exists k int :: 0 <= k && k < len(txs) && tx == txs[k])
